@@ -137,6 +137,37 @@ pub fn to_bytes_i<const N: usize>(s: Sign, be: bool, top: Word) {
     assert!(check_i(&y, s, &a), "decoding the encoding gives a different integer");
 }
 
+/// two's complement byte encodings of LITERAL integers at word / byte boundaries (no symbolic input: the
+/// symbolic versions are probes because the byte count is data dependent): to_* then from_* gives the value back
+pub fn bytes_literals(which: u8) {
+    // (sign, words)
+    let w3: [Word; 3] = [0, 0, 1]; // 2^128
+    let w3b: [Word; 3] = [1, 0, 1];
+    let w4: [Word; 4] = [0, 0, 0, 1]; // 2^192
+    let w2: [Word; 2] = [0, 1]; // 2^64
+    let w2b: [Word; 2] = [0, 0x100]; // 2^72
+    let w3c: [Word; 3] = [0, 0, 0x8000]; // 2^143
+    let w3d: [Word; 3] = [0, 0, 0x100]; // 2^136
+    let w3e: [Word; 3] = [0, 0, 0x80]; // 2^135
+    let w3f: [Word; 3] = [Word::MAX, Word::MAX, 0xff]; // 2^136 - 1
+    let w3g: [Word; 3] = [1, 0, 0x100]; // 2^136 + 1
+    let cases: [(Sign, &[Word]); 16] = [
+        (NEG, &w3), (POS, &w3), (NEG, &w3b), (NEG, &w4), (NEG, &w2), (POS, &w2), (NEG, &w2b), (NEG, &w3c), (POS, &w3c), (POS, &w4),
+        (NEG, &w3d), (NEG, &w3e), (NEG, &w3f), (POS, &w3f), (NEG, &w3g), (POS, &w3e),
+    ];
+    let (s, w) = cases[which as usize];
+    let x = ibig(s, w);
+    let le = x.to_le_bytes();
+    let y = IBig::from_le_bytes(&le);
+    assert!(check_i(&y, s, w), "from_le_bytes(to_le_bytes(x)) != x");
+    let be = x.to_be_bytes();
+    let z = IBig::from_be_bytes(&be);
+    assert!(check_i(&z, s, w), "from_be_bytes(to_be_bytes(x)) != x");
+    assert!(le.len() == be.len());
+    // the encoding is two's complement: the top bit of the most significant byte is the sign
+    assert!((le[le.len() - 1] >= 0x80) == (s == NEG) && (be[0] >= 0x80) == (s == NEG), "sign bit of the encoding differs from the sign");
+}
+
 // ------------------------------------------------------------------ parsing arbitrary ASCII
 
 fn digit_val(b: u8) -> Option<u32> {
